@@ -872,7 +872,7 @@ func c10Sets(c *Check, tables map[string][]*ssa.Function) {
 			if !ok {
 				continue
 			}
-			call, ok := ret.Results[0].(*ssa.Call)
+			call, ok := retVal(ret, 0).(*ssa.Call)
 			if !ok {
 				continue
 			}
